@@ -681,4 +681,209 @@ theorem C03_frame (p p' : Problem) (e : Edit) (hI : Inv p) (h : applyEdit p e = 
   intro act hm heq
   exact hq (heq ▸ plan_targets p e as hp act hm)
 
+/-! ## the edited quantity carries the new value: the setters one reads about in the property -/
+
+theorem absActions_single (a : AbstractProblem) (act : Action) : absActions a [act] = absAction a act := rfl
+
+/-- **C03_importance.**  Setting the importance of one particle of a cell gives that particle the value and changes
+    no other quantity — in particular not the other particles of the cell, also when they were parsed from one
+    `imp:n,p=` entry and share one tree (the setter copies on write). -/
+theorem C03_importance (p p' : Problem) (i : Nat) (part : String) (v : PyVal) (hI : Inv p)
+    (h : applyEdit p (.importance i part v) = .ok p') :
+    (∃ q, pyNum v = some q ∧ α p' (.node (.cellImp i part)) = .val (some (.num q))) ∧
+    (∀ x, x ≠ .node (.cellImp i part) → α p' x = α p x) := by
+  constructor
+  · obtain ⟨as, hp, hα⟩ := C03_refines p p' _ hI h
+    simp only [plan] at hp
+    repeat' split at hp
+    all_goals first | cases hp | skip
+    rename_i q _ _
+    refine ⟨q, by assumption, ?_⟩
+    rw [hα, absActions_single]
+    simp [absAction, isImp, upd]
+  · intro x hx
+    apply C03_frame p p' _ hI h
+    simpa [editTargets] using hx
+
+/-- **C03_density.**  `mass_density = q` stores the magnitude in the density node, records the mode in the flag, and
+    changes nothing else; the mode is written as the sign (`density.is_negative = not is_atom_dens`) whenever the cell
+    has a material.  Symmetrically for `atom_density`. -/
+theorem C03_density (p p' : Problem) (i : Nat) (v : PyVal) (atom : Bool) (hI : Inv p)
+    (h : applyEdit p (if atom then .atomDensity i v else .massDensity i v) = .ok p') :
+    α p' (.field (.cellAtomDens i)) = .flag atom ∧
+    (∀ id, p.slot (.cellDensity i) = some id → ∃ q, pyNum v = some q ∧ 0 ≤ q ∧
+        α p' (.node (.cellDensity i)) = .val (some (.num q))) ∧
+    (∀ m, α p' (.field (.cellMat i)) = .ptr (some m) → written p' (.cellDensitySign i) = .flag (!atom)) ∧
+    (∀ x, x ≠ .field (.cellAtomDens i) → x ≠ .node (.cellDensity i) → α p' x = α p x) := by
+  have key : ∃ q, pyNum v = some q ∧ 0 ≤ q ∧
+      α p' = absActions (α p) [.setField (.cellAtomDens i) (.flag atom), .write (.cellDensity i) (some (.num q))] := by
+    obtain ⟨as, hp, hα⟩ := C03_refines p p' _ hI h
+    cases atom
+    · simp only [Bool.false_eq_true, if_false, plan] at hp
+      repeat' split at hp
+      all_goals first | cases hp | skip
+      rename_i q _ hq
+      exact ⟨q, by assumption, Rat.not_lt.mp (by simpa using hq), hα⟩
+    · simp only [if_true, plan] at hp
+      repeat' split at hp
+      all_goals first | cases hp | skip
+      rename_i q _ hq
+      exact ⟨q, by assumption, Rat.not_lt.mp (by simpa using hq), hα⟩
+  obtain ⟨q, hq, hq0, hα⟩ := key
+  have hflag : α p' (.field (.cellAtomDens i)) = .flag atom := by
+    rw [hα]
+    simp [absActions, absAction, upd, isImp]
+    split <;> simp [upd]
+  refine ⟨hflag, ?_, ?_, ?_⟩
+  · intro id hid
+    refine ⟨q, hq, hq0, ?_⟩
+    rw [hα]
+    have hne : α p (.node (.cellDensity i)) ≠ .absent := by
+      rw [α_node_some _ _ id hid]; simp
+    simp [absActions, absAction, upd, isImp, hne]
+  · intro m hm
+    have h1 : p'.field (.cellMat i) = .ptr (some m) := hm
+    have h2 : p'.field (.cellAtomDens i) = .flag atom := hflag
+    simp [written, h1, h2]
+  · intro x hx1 hx2
+    apply C03_frame p p' _ hI h
+    cases atom <;> simp [editTargets, hx1, hx2]
+
+/-- **C03_datablock_row.**  A data-block card (VOL, LAT, one particle of IMP) is rebuilt from one node per cell, in
+    cell order.  After any accepted edit the row holds the same values at every position the edit is not about:
+    editing one cell's datum changes only that cell's position of the card. -/
+theorem C03_datablock_row (p p' : Problem) (e : Edit) (mk : Nat → Slot) (hI : Inv p)
+    (h : applyEdit p e = .ok p') (hn : p'.ncells = p.ncells) (j : Nat)
+    (hj : Quantity.node (mk j) ∉ editTargets p e) :
+    (dataRowValues p' mk)[j]? = (dataRowValues p mk)[j]? := by
+  unfold dataRowValues
+  rw [hn]
+  simp only [List.getElem?_map]
+  cases hr : (List.range p.ncells)[j]? with
+  | none => rfl
+  | some k =>
+    have hk : k = j := by
+      have := List.getElem?_eq_some_iff.1 hr
+      obtain ⟨hlt, hget⟩ := this
+      simpa using hget.symm
+    subst hk
+    simp only [Option.map_some]
+    rw [C03_frame p p' e hI h _ hj]
+
+/-- the cells are not created or removed by an edit -/
+theorem execAction_ncells (p : Problem) (act : Action) : (execAction p act).ncells = p.ncells := by
+  cases act with
+  | setField f o => rfl
+  | write s v =>
+    by_cases hImp : isImp s = true
+    · obtain ⟨i, part, rfl⟩ : ∃ i part, s = .cellImp i part := by
+        cases s <;> simp [isImp] at hImp
+        exact ⟨_, _, rfl⟩
+      simp only [execAction]
+      cases hs : p.slot (.cellImp i part) with
+      | none => rw [setImp_none _ _ _ _ hs]; rfl
+      | some id =>
+        by_cases hsh : sharedImp p i part id = true
+        · rw [setImp_shared _ _ _ _ _ hs hsh]; rfl
+        · rw [setImp_own _ _ _ _ _ hs (by simpa using hsh)]; rfl
+    · rw [execAction_plain p s (by simpa using hImp)]
+      cases p.slot s <;> rfl
+
+theorem execActions_ncells (as : List Action) : ∀ p : Problem, (execActions p as).ncells = p.ncells := by
+  induction as with
+  | nil => intro p; rfl
+  | cons a as ih => intro p; show (execActions (execAction p a) as).ncells = _; rw [ih, execAction_ncells]
+
+theorem applyEdit_ncells (p p' : Problem) (e : Edit) (h : applyEdit p e = .ok p') : p'.ncells = p.ncells := by
+  obtain ⟨as, _, rfl⟩ := applyEdit_ok p p' e h
+  exact execActions_ncells as p
+
+/-! ## what is written -/
+
+theorem nodeNumber_eq (p : Problem) (s : Slot) : nodeNumber p s = α p (.node s) := by
+  cases h : p.slot s <;> simp [nodeNumber, α, h]
+
+theorem writtenNode_eq (p : Problem) (hI : Inv p) (s : Slot) : writtenNode p s = α p (.node s) := by
+  have key : treeAfterUpdate p s = p.slot s := by
+    unfold treeAfterUpdate
+    by_cases hr : relinked s = true
+    · simp [hr]
+    · have hr' : relinked s = false := by simpa using hr
+      simp [hr', hI.reach s hr']
+  cases h : p.slot s <;> simp [writtenNode, key, α, h]
+
+/-- a fill transform is only printed between parentheses the FILL entry already had -/
+def FillTransformsHadParens (p : Problem) : Prop :=
+  ∀ i u t, p.field (.cellFillUni i) = .ptr (some u) → p.field (.cellFillTr i) = .ptr (some t) → p.fillParens i = true
+
+/-- the statement at full strength: what is printed is the rendering of the abstract problem -/
+def C03_written_statement : Prop :=
+  ∀ p : Problem, Inv p → ∀ k : WKey, written p k = render (α p) k
+
+/-- **C03_written_partial.**  Under `Inv`, every position of the file prints the value its quantity has in the
+    abstract problem (numbers of pointees for references, the sign for the density mode, the modifier for the
+    boundary flags, nothing for a deleted pointer) — except a transform set on a FILL that was read without one. -/
+theorem C03_written_partial (p : Problem) (hI : Inv p) (hF : FillTransformsHadParens p) (k : WKey) :
+    written p k = render (α p) k := by
+  cases k with
+  | node s => exact writtenNode_eq p hI s
+  | cellMaterial i => simp only [written, render, α_field, nodeNumber_eq]
+  | cellDensitySign i => simp only [written, render, α_field]
+  | cellU i => simp only [written, render, α_field]
+  | cellFill i => simp only [written, render, α_field]
+  | cellFillTr i =>
+    simp only [written, render, α_field, nodeNumber_eq]
+    split
+    · rename_i u t hu ht
+      simp [hF i u t hu ht]
+    · rfl
+  | surfModifier i => simp only [written, render, α_field]
+  | surfPointer i => simp only [written, render, α_field, nodeNumber_eq]
+  | field f => rfl
+
+/-- `C03_written` for the problems edits can reach from files whose filled cells all carry their transform -/
+theorem C03_written (p : Problem) (hI : Inv p) (hF : FillTransformsHadParens p) :
+    ∀ k, written p k = render (α p) k := C03_written_partial p hI hF
+
+/-- witness: one cell filled with universe 0, a transform TR5 set on its fill, no parentheses in the FILL tree -/
+def fillWitness : Problem where
+  heap := fun _ => { value := some (.num 5), negatable := false, isNeg := none }
+  next := 1
+  slot := fun s => if s = .trNumber 0 then some 0 else none
+  tree := fun s => if s = .trNumber 0 then some 0 else none
+  field := fun f => if f = .cellFillUni 0 then .ptr (some 0) else if f = .cellFillTr 0 then .ptr (some 0)
+    else if f = .uniNumber 0 then .int 3 else .absent
+  impKeys := fun _ => []
+  ncells := 1
+  nsurfs := 0
+  nmats := 0
+  ntrs := 1
+  nunis := 1
+  surfKind := fun _ => .generic
+  nconst := fun _ => 0
+  fillParens := fun _ => false
+
+theorem fillWitness_inv : Inv fillWitness := by
+  constructor
+  · intro s s' id h h'
+    left
+    simp only [fillWitness] at h h'
+    split at h <;> split at h' <;> simp_all
+  · intro s id h
+    simp only [fillWitness] at h
+    split at h
+    · cases h; show 0 < 1; decide
+    · cases h
+  · intro i a
+    simp [fillWitness]
+  · intro s _
+    rfl
+
+/-- **C03_written_refuted** (known finding C03-F1): `fill.transform = t` on a FILL read without a transform is
+    accepted and not written. -/
+theorem C03_written_refuted : ¬ C03_written_statement := by
+  intro h
+  have := h fillWitness fillWitness_inv (.cellFillTr 0)
+  simp [written, render, α, fillWitness] at this
+
 end MontePyVerif.Edits
